@@ -18,7 +18,7 @@ ASSUMPTIONS = [               'quoted strings in user alternatives contain no es
                'under @@section a property key may give nothing or a raw body (fuzzy match), under @@property the converse; only "must not give its own line" is judged',
                'value-scope keywords are checked for properties with a single built-in snippet',
                'a per-syntax `cache` dict is used for 39 of 40 calls (snippet conversion costs 6 ms); every second user table goes through one cache dict shared by all tables and scopes of the shard']
-FLOORS = {'quick': {'key': 2700, 'keyword': 1500, 'scope': 5000, 'user-table': 1500, 'user-table:bystander': 600}, 'thorough': {'key': 2700, 'keyword': 1500, 'scope': 5000, 'user-table': 40000, 'user-table:bystander': 7000}}
+FLOORS = {'quick': {'scope-pair': 2500, 'key': 2700, 'keyword': 1500, 'scope': 5000, 'user-table': 1500, 'user-table:bystander': 600}, 'thorough': {'scope-pair': 2500, 'key': 2700, 'keyword': 1500, 'scope': 5000, 'user-table': 40000, 'user-table:bystander': 7000}}
 REQUIRED_MONITORS = ['oracle:key-reaches-snippet', 'oracle:keyword', 'oracle:scope', 'oracle:user-table', 'oracle:builtin-key-beside-user-table']
 SYNTAXES = ['css', 'scss', 'less', 'sss', 'sass', 'stylus']
 FMT = {'css': (': ', ';'), 'scss': (': ', ';'), 'less': (': ', ';'), 'sss': (': ', ';'), 'sass': (': ', ''), 'stylus': (' ', '')}
@@ -242,6 +242,25 @@ def run_shard(desc, ctx):
             for key, value in sorted(tbl.items()):
                 for scope in (None, '@@global', '@@section', '@@property', '@@value', 'padding'):
                     mon.key_case(key, value, syntax, scope, 'key' if scope in (None, '@@global') else 'scope')
+            # a scope restricts EVERY property of an abbreviation alike: two keys of the permitted kind joined by `+` give their two lines
+            # (the second key before, equal to and after the first in sort order)
+            by_kind = {'property': [], 'raw': []}
+            for key, value in sorted(tbl.items()):
+                if key != 'lg' and value and '+' not in key:
+                    by_kind[classify(value)[0]].append(key)
+            for kind, scope in (('property', '@@property'), ('raw', '@@section'), ('property', None)):
+                keys = by_kind[kind]
+                for i, k1 in enumerate(keys):
+                    for k2 in {keys[(i * 7 + 3) % len(keys)], k1, keys[i - 1]}:
+                        ctx.ev('scope-pair')
+                        ctx.mon('oracle:scope')
+                        e1, e2 = expected_line(tbl[k1], syntax)[1], expected_line(tbl[k2], syntax)[1]
+                        case = {'kind': 'pair', 'keys': [k1, k2], 'syntax': syntax, 'scope': scope}
+                        r = mon.run(k1 + '+' + k2, syntax, {'name': scope} if scope else None)
+                        if r[0] == 'exc':
+                            ctx.violation('exception', case, {'exc': list(core.exc_site(r[1])), 'msg': str(r[1])[:100]})
+                        elif norm(r[1]) != norm(e1 + '\n' + e2):
+                            ctx.violation('scope-pair-differs-from-its-two-lines', case, {'expected': norm(e1 + '\n' + e2), 'actual': norm(r[1])})
         elif desc['kind'] == 'keywords':
             props = {}
             for key, value in tbl.items():
@@ -339,6 +358,16 @@ def replay(case, ctx):
         mon.key_case(case['key'], case['value'], case['syntax'], case['scope'], 'replay')
     elif case['kind'] == 'keyword':
         mon.keyword_case(case['key'], case['property'], case['keyword'], case['typed'], case['syntax'], 'replay', case['value_scope'])
+    elif case['kind'] == 'pair':
+        ctx.ev('replay')
+        tbl = raw_table()
+        k1, k2 = case['keys']
+        e1, e2 = expected_line(tbl[k1], case['syntax'])[1], expected_line(tbl[k2], case['syntax'])[1]
+        r = mon.run(k1 + '+' + k2, case['syntax'], {'name': case['scope']} if case['scope'] else None)
+        if r[0] == 'exc':
+            ctx.violation('exception', case, {'exc': list(core.exc_site(r[1]))})
+        elif norm(r[1]) != norm(e1 + '\n' + e2):
+            ctx.violation('scope-pair-differs-from-its-two-lines', case, {'expected': norm(e1 + '\n' + e2), 'actual': norm(r[1])})
     elif case['kind'] == 'bystander':
         ctx.ev('replay')
         kind, exp, prop = expected_line(raw_table()[case['key']], case['syntax'])
